@@ -118,6 +118,7 @@ const (
 	cnAsk   = 0xC0000000
 	cnPanic = 0x20000000
 	cnHold  = 0x10000000
+	cnWrite = 0x08000000 // answer the request (with retries)
 )
 
 func cnGoodX(id uint32, bits uint32) []byte {
@@ -149,7 +150,7 @@ func runCN(id int, c *cnCase, via string) cnLine {
 	curLog.Store(lg)
 	defer curLog.Store((*evlog)(nil))
 	for _, ev := range c.Sched {
-		if ev == "mm" || ev == "m1" || ev == "m2" || ev == "xbig" || ev == "eofd" {
+		if ev == "mm" || ev == "m1" || ev == "m2" || ev == "xbig" || ev == "eofd" || ev == "heofd" {
 			l.Conform = false // the model's chunks are whole messages, and data never comes with the end of the stream
 		}
 
@@ -200,6 +201,9 @@ func runCN(id int, c *cnCase, via string) cnLine {
 			mu.Lock()
 			chans = append(chans, ch)
 			mu.Unlock()
+		}
+		if m.Header.EndToEndID&cnWrite != 0 {
+			m.Answer(2001).WriteToWithRetry(dc, 2)
 		}
 		if m.Header.EndToEndID&cnHold != 0 {
 			holding <- struct{}{}
@@ -288,6 +292,24 @@ func runCN(id int, c *cnCase, via string) cnLine {
 				waitDelivered(wantDel)
 				mc.WaitReaderBlocked(2 * time.Second)
 			}
+		case "mw": // a good message whose handler answers; the transport refuses the first write attempt temporarily
+			if !term {
+				nextID++
+				nw := 0
+				mc.OnWrite = func(k int, b []byte) memnet.WriteOutcome {
+					nw++
+					if nw == 1 {
+						return memnet.WriteOutcome{N: 0, Err: &memnet.NetErr{Msg: "scripted temporary write error", Temp: true}}
+					}
+					return memnet.WriteOutcome{N: -1}
+				}
+				lg.add(cnEvent{Ev: "feed", K: "m"})
+				mc.Feed(cnGoodX(nextID, cnWrite))
+				wantDel++
+				waitDelivered(wantDel)
+				mc.WaitReaderBlocked(2 * time.Second)
+				mc.OnWrite = nil
+			}
 		case "mm":
 			if !term {
 				b := append(cnGood(nextID+1, true), cnGood(nextID+2, false)...)
@@ -341,10 +363,15 @@ func runCN(id int, c *cnCase, via string) cnLine {
 			mc.Feed(cnGoodX(nextID, bits))
 			mc.WaitClosed(3 * time.Second)
 			term = true
-		case "heof": // the peer disconnects while a handler is running
+		case "heof", "heofd": // the peer disconnects while a handler is running (heofd: with one more message behind)
 			nextID++
 			lg.add(cnEvent{Ev: "feed", K: "m"})
-			mc.Feed(cnGoodX(nextID, cnHold))
+			if ev == "heofd" {
+				nextID++
+				mc.Feed(append(cnGoodX(nextID-1, cnHold), cnGood(nextID, false)...))
+			} else {
+				mc.Feed(cnGoodX(nextID, cnHold))
+			}
 			select {
 			case <-holding:
 			case <-time.After(3 * time.Second):
@@ -415,7 +442,7 @@ func runCN(id int, c *cnCase, via string) cnLine {
 			term = true
 		}
 		var held []bool
-		if ev == "heof" {
+		if ev == "heof" || ev == "heofd" {
 			// while the handler is still running: if the reader has switched to the pipe the copier sees
 			// the peer's close and the channels fire now (bounded wait); then the handler is released
 			deadline := time.Now().Add(300 * time.Millisecond)
